@@ -1,2 +1,41 @@
-(* C02 - statements only (proofs pending). *)
-From N2 Require Import Model.All.
+(* C02 - the decision rule half of "an incremental build leaves what a clean build would":
+   statements only; proofs in Proofs/World*.v *)
+From Coq Require Import String.
+From N2 Require Import Model.All Proofs.DbSpec Proofs.WorldSpec.
+From N2 Require Import Proofs.WorldBase Proofs.WorldDeps Proofs.WorldDirty Proofs.WorldHash.
+
+Theorem C02_record_manifest_exists : forall w b bd reported w1 h, record_finished w b bd reported = Ok (w1, Some h) -> exists m0, manifest_of w1 bd (disc_of w1 b) = Some m0 /\ hash_build m0 = h.
+Proof. exact record_manifest_exists. Qed.
+Print Assumptions C02_record_manifest_exists.
+
+Theorem C02_clean_same_hash : forall g w b bd reported w1 h bd' w2 w2', record_finished w b bd reported = Ok (w1, Some h) -> check_build_dirty g w2 b bd' = (w2', DClean) -> wb_cmdline bd' <> None -> assoc_nat b (ws_hashes w2) = Some h -> exists m0 m, manifest_of w1 bd (disc_of w1 b) = Some m0 /\ hash_build m0 = h /\ manifest_of w2' bd' (disc_of w2 b) = Some m /\ hash_build m = hash_build m0.
+Proof. exact clean_same_hash. Qed.
+Print Assumptions C02_clean_same_hash.
+
+Theorem C02_clean_implies_recorded_manifest : (forall m1 m2, hash_build m1 = hash_build m2 -> manifest_stream m1 = manifest_stream m2) -> forall g w b bd reported w1 h bd' w2 w2', record_finished w b bd reported = Ok (w1, Some h) -> check_build_dirty g w2 b bd' = (w2', DClean) -> wb_cmdline bd' <> None -> assoc_nat b (ws_hashes w2) = Some h -> exists m0 m, manifest_of w1 bd (disc_of w1 b) = Some m0 /\ hash_build m0 = h /\ manifest_of w2' bd' (disc_of w2 b) = Some m /\ manifest_stream m = manifest_stream m0.
+Proof. exact clean_implies_recorded_manifest. Qed.
+Print Assumptions C02_clean_implies_recorded_manifest.
+
+Theorem C02_manifest_stream_injective : forall m1 m2, wf_manifest m1 = true -> wf_manifest m2 = true -> mf_rsp m1 = mf_rsp m2 -> manifest_stream m1 = manifest_stream m2 -> m1 = m2.
+Proof. exact manifest_stream_injective. Qed.
+Print Assumptions C02_manifest_stream_injective.
+
+Theorem C02_manifest_stream_prefix_injective : forall m1 m2, wf_manifest m1 = true -> wf_manifest m2 = true -> manifest_stream m1 = manifest_stream m2 -> mf_ins m1 = mf_ins m2 /\ mf_discovered m1 = mf_discovered m2 /\ mf_cmdline m1 = mf_cmdline m2 /\ rsp_part m1 ++ hash_files (mf_outs m1) = rsp_part m2 ++ hash_files (mf_outs m2).
+Proof. exact manifest_stream_prefix_injective. Qed.
+Print Assumptions C02_manifest_stream_prefix_injective.
+
+Theorem C02_manifest_of_shape : forall w bd d m, manifest_of w bd d = Some m -> map fst (mf_ins m) = wb_dirtying bd /\ map fst (mf_discovered m) = d /\ map fst (mf_outs m) = wb_outs bd /\ mf_cmdline m = match wb_cmdline bd with Some c => c | None => [] end /\ mf_rsp m = wb_rsp bd /\ forall n t, In (n, t) (mf_ins m ++ mf_discovered m ++ mf_outs m) -> cache_get (ws_cache w) n = Some (Some t).
+Proof. exact manifest_of_shape. Qed.
+Print Assumptions C02_manifest_of_shape.
+
+Theorem C02_clean_means_identical : forall g w b bd reported w1 h bd' w2 w2' m0, record_finished w b bd reported = Ok (w1, Some h) -> manifest_of w1 bd (disc_of w1 b) = Some m0 -> wf_manifest m0 = true -> check_build_dirty g w2 b bd' = (w2', DClean) -> wb_cmdline bd' <> None -> assoc_nat b (ws_hashes w2) = Some h -> wb_rsp bd' = wb_rsp bd -> (forall m, manifest_of w2' bd' (disc_of w2 b) = Some m -> wf_manifest m = true /\ no_collision m m0) -> manifest_of w2' bd' (disc_of w2 b) = Some m0.
+Proof. exact clean_means_identical. Qed.
+Print Assumptions C02_clean_means_identical.
+
+Theorem C02_never_skips_changed : forall g w b bd reported w1 h bd' w2 w2' r m0, record_finished w b bd reported = Ok (w1, Some h) -> manifest_of w1 bd (disc_of w1 b) = Some m0 -> wf_manifest m0 = true -> check_build_dirty g w2 b bd' = (w2', r) -> wb_cmdline bd' <> None -> assoc_nat b (ws_hashes w2) = Some h -> wb_rsp bd' = wb_rsp bd -> (forall m, manifest_of w2' bd' (disc_of w2 b) = Some m -> wf_manifest m = true /\ no_collision m m0) -> ((exists n t0, In (n, t0) (mf_ins m0 ++ mf_discovered m0 ++ mf_outs m0) /\ cache_get (ws_cache w2') n <> Some (Some t0)) \/ wb_dirtying bd' <> map fst (mf_ins m0) \/ disc_of w2 b <> map fst (mf_discovered m0) \/ wb_outs bd' <> map fst (mf_outs m0) \/ match wb_cmdline bd' with Some c => c | None => [] end <> mf_cmdline m0) -> r <> DClean.
+Proof. exact never_skips_changed. Qed.
+Print Assumptions C02_never_skips_changed.
+
+Theorem C02_never_skips_changed_tree : forall g w b bd reported w1 h bd' w2 w2' r m0 n t0, record_finished w b bd reported = Ok (w1, Some h) -> manifest_of w1 bd (disc_of w1 b) = Some m0 -> wf_manifest m0 = true -> check_build_dirty g w2 b bd' = (w2', r) -> wb_cmdline bd' <> None -> assoc_nat b (ws_hashes w2) = Some h -> wb_rsp bd' = wb_rsp bd -> (forall m, manifest_of w2' bd' (disc_of w2 b) = Some m -> wf_manifest m = true /\ no_collision m m0) -> cache_consistent w2 -> In (n, t0) (mf_ins m0 ++ mf_discovered m0 ++ mf_outs m0) -> fs_get (ws_fs w2) n <> Some t0 -> r <> DClean.
+Proof. exact never_skips_changed_tree. Qed.
+Print Assumptions C02_never_skips_changed_tree.
